@@ -504,7 +504,7 @@ def parse_rattr_results_from_annotation_args_impl(
             if "unable to evaluate" in line:
                 has_likely_missing_comma = True
             else:
-                print(line)
+                print(line, file=sys.stderr)
 
         if has_likely_missing_comma:
             error.fatal(
